@@ -328,9 +328,9 @@ class Hist(Entry):
         cs = []
         if round == 0:
             cs += _adversarial(ctx.rng)
-        cs += _random(ctx, ctx.n(1500, 12000), ctx.n(200, 500))
+        cs += _random(ctx, ctx.n(1500, 9000), ctx.n(200, 400))
         if round == 0:
-            cs += _random(ctx, ctx.n(4, 48), ctx.n(1000, 3000))          # a few long arrays
+            cs += _random(ctx, ctx.n(4, 24), ctx.n(1000, 2000))          # a few long arrays
         ctx.rng.shuffle(cs)                       # spread the expensive cases over the Coq shards
         return cs
 
